@@ -43,6 +43,11 @@ class Mutant:
                     if n == 0:
                         raise MutantNotApplicable('pattern %r not found' % op[1])
                     src = new
+                elif op[0] == 'regex_all':
+                    new, n = re.subn(op[1], op[2], src, flags=re.M | re.S)
+                    if n == 0:
+                        raise MutantNotApplicable('pattern %r not found' % op[1])
+                    src = new
                 elif op[0] == 'delete':
                     lines = src.split('\n')
                     for i, l in enumerate(lines):
